@@ -29,11 +29,16 @@ def weights(sr):
     return [16 * prod // (a * a) for a in sr], prod
 
 
+def scale_of(inp):
+    return 2.0 ** inp.get("scale_pow", 0)
+
+
 def search_range_arg(inp):
     sr = inp["sr"]
+    f = scale_of(inp)
     if inp.get("iso", True):
-        return sr[0] / 4.0
-    return tuple(a / 4.0 for a in sr)
+        return sr[0] / 4.0 * f
+    return tuple(a / 4.0 * f for a in sr)
 
 
 def gen_movie(rng, thorough=False, plant_history=False, dense=False):
@@ -54,6 +59,10 @@ def gen_movie(rng, thorough=False, plant_history=False, dense=False):
     Rmax = max(sr) / 4.0
     # lattice side: mean number of particles within range of one another between 0.3 and 4
     target = rng.choice([0.3, 1.0, 2.0, 4.0]) if not dense else rng.choice([3.0, 6.0])
+    if npart > 12:
+        # large levels: keep sub-nets small enough for the branch and bound (the code's and the
+        # monitor's) to finish in bounded time
+        target = rng.choice([0.3, 0.6, 1.0])
     vol_ball = {1: 2 * Rmax, 2: 3.14 * Rmax ** 2, 3: 4.19 * Rmax ** 3}[dim]
     side = max(2, int(round((max(npart, 1) * vol_ball / target) ** (1.0 / dim))))
     step = max(1, int(Rmax))
@@ -98,7 +107,25 @@ def gen_movie(rng, thorough=False, plant_history=False, dense=False):
             pts.append(list(rng.choice(pts)))                # exact duplicate position
         rng.shuffle(pts)
         frames.append(pts)
-    inp = dict(dim=dim, frames=frames, t0=rng.choice([0, 0, 1, 5, 17]), sr=sr, iso=iso,
+    if npart <= 12 and nfr >= 2 and memory == 0 and rng.random() < 0.15:
+        # a crowded level followed by a nearly empty one: 9-11 features within range of one spot
+        # (exactly MAX_NEIGHBORS = 10 candidate sources is still inside C02's quantifier)
+        k = rng.randrange(0, nfr - 1)
+        c = [rng.randrange(side) for _ in range(dim)]
+        rad = max(1, int(min(sr) / 4.0 / (dim ** 0.5)) - 1) if min(sr) >= 8 else 1
+        crowd = []
+        for _ in range(rng.choice([9, 10, 10, 10, 11])):
+            crowd.append([ci + rng.randint(-rad, rad) for ci in c])
+        frames[k] = crowd
+        frames[k + 1] = [list(c)] + ([[ci + 3 * int(max(sr) / 4.0) + 2 for ci in c]] if rng.random() < 0.5 else [])
+    # uniform power-of-two rescaling of coordinates and search_range (exact in float64; the
+    # monitor's integer costs do not change: Props/C03 scale_invariant).  Small magnitudes expose
+    # absolute tolerances, large ones loss of precision.
+    # (not below 2^-10: HashKDTree.query adds an ABSOLUTE slack of 1e-7 to the search range, which
+    # must stay negligible against the lattice spacing for the candidate relation to be exact)
+    scale_pow = rng.choice([0, 0, 0, 0, 0, 0, -10, -8, 10, 20])
+    inp = dict(dim=dim, frames=frames, t0=rng.choice([0, 0, 1, 5, 17, -3, -8]), sr=sr, iso=iso,
+               scale_pow=scale_pow, default_cols=(rng.random() < 0.3),
                memory=memory, strategy="recursive", entry="link_iter", missing=[])
     return inp
 
@@ -151,7 +178,7 @@ def run_impl(inp, extra_kwargs=None, predictor=None):
     if entry == "link_iter":
         def it():
             for k, pts in enumerate(frames):
-                yield t0 + k * ts, np.array(pts, dtype=float).reshape(len(pts), dim)
+                yield t0 + k * ts, np.array(pts, dtype=float).reshape(len(pts), dim) * scale_of(inp)
         gen = tp.link_iter(it(), sr, **kw)
         k = 0
         while True:
@@ -170,7 +197,7 @@ def run_impl(inp, extra_kwargs=None, predictor=None):
 
         def dfs():
             for k, pts in enumerate(frames):
-                a = np.array(pts, dtype=float).reshape(len(pts), dim)
+                a = np.array(pts, dtype=float).reshape(len(pts), dim) * scale_of(inp)
                 df = pd.DataFrame(a, columns=cols)
                 df["frame"] = t0 + k * ts
                 given.append((df, df.copy(deep=True)))
@@ -188,7 +215,7 @@ def run_impl(inp, extra_kwargs=None, predictor=None):
             except SubnetOversizeException:
                 levels.append((t0 + k * ts, frames[k], None))
                 break
-            levels.append((t0 + k * ts, [[int(round(v)) for v in row] for row in df[cols].values],
+            levels.append((t0 + k * ts, [[int(round(v / scale_of(inp))) for v in row] for row in df[cols].values],
                            [int(i) for i in df["particle"].values]))
             k += 1
         # purity: the caller's per-frame tables must be left as they were
@@ -205,20 +232,26 @@ def run_impl(inp, extra_kwargs=None, predictor=None):
             if k in missing:
                 continue
             for p in pts:
-                rows.append(list(map(float, p)) + [t0 + k])
+                rows.append([float(c) * scale_of(inp) for c in p] + [t0 + k])
         if not rows:
             return None
         df = pd.DataFrame(rows, columns=cols + ["frame"])
         df["frame"] = df["frame"].astype(int)
+        lkw = dict(kw)
+        if inp.get("default_cols") and dim >= 2:
+            # rely on link's default pos_columns, with the table listing x before y (before z)
+            df = df[cols[::-1] + ["frame"]]
+        else:
+            lkw["pos_columns"] = cols
         try:
-            out = tp.link(df, sr, pos_columns=cols, **kw)
+            out = tp.link(df, sr, **lkw)
         except SubnetOversizeException:
             return "oversize"
         fr = out["frame"].values
         lo, hi = int(fr.min()), int(fr.max())
         for t in range(lo, hi + 1):
             sub = out[out["frame"] == t]
-            levels.append((t, [[int(round(v)) for v in row] for row in sub[cols].values],
+            levels.append((t, [[int(round(v / scale_of(inp))) for v in row] for row in sub[cols].values],
                            [int(i) for i in sub["particle"].values]))
         return levels
     raise ValueError(entry)
@@ -229,9 +262,12 @@ def run_impl(inp, extra_kwargs=None, predictor=None):
 
 def cfg_tokens(inp, maxsize=30, maxn=10, vel=None, drop=False, opt=True):
     w, B = weights(inp["sr"])
-    return "w=%s B=%d mem=%d maxn=%d maxsize=%d vel=%s drop=%d opt=%d" % (
+    # numba / hybrid: numba_link also raises when a source has more than 9 forward candidates
+    ncap = inp.get("strategy") in ("numba", "hybrid")
+    return "w=%s B=%d mem=%d maxn=%d maxsize=%d vel=%s drop=%d opt=%d ncap=%d" % (
         ",".join(map(str, w)), B, inp["memory"], maxn, maxsize,
-        "-" if not vel else ",".join(str(int(v)) for v in vel), 1 if drop else 0, 1 if opt else 0)
+        "-" if not vel else ",".join(str(int(v)) for v in vel), 1 if drop else 0, 1 if opt else 0,
+        1 if ncap else 0)
 
 
 def lrun_line(inp, levels, **kw):
@@ -380,6 +416,28 @@ def run_movie_case(ctx, inp, want=("valid", "optimal"), prop="C01", maxsize=30):
         if v == "capped":
             res.stat("capped_raise")
         res.nontrivial = (c + r) > 0
+        # function mode: when every step's optimum is unique the implementation's partition must be
+        # the one of the deterministic algorithm model (Props/C02Algo algo_accepted)
+        if (v == "ok" and m.get("ties") == "0" and m.get("capped") == "0" and "optimal" in want
+                and inp.get("strategy") != "drop"):
+            a = ctx.ask(lrun_line(inp, levels, maxsize=maxsize).replace("LRUN", "LALGO", 1))
+            if a.startswith("ok"):
+                alab = [[int(x) for x in part.split(",") if x != ""] for part in a[3:].split("|")]
+                if len(alab) == len(levels) and all(len(x) == len(l[2]) for x, l in zip(alab, levels)):
+                    def part(labs):
+                        d = {}
+                        for k, ls in enumerate(labs):
+                            for i, l in enumerate(ls):
+                                d.setdefault(l, []).append((k, i))
+                        return frozenset(tuple(x) for x in d.values())
+                    res.stat("function_mode_compared")
+                    if part(alab) != part([l[2] for l in levels]):
+                        res.violation("correspondence-break",
+                                      "unique optimum at every step, yet the implementation's partition "
+                                      "differs from the deterministic algorithm model",
+                                      impl=[l[2] for l in levels], model=alab,
+                                      broken="LinkerAlgo.algoLabels (function mode)",
+                                      signature=dict(stream="step", what="function-mode-differs"))
         if res.nontrivial and len(levels) <= 4:
             res.sample = dict(input=inp, implementation_levels=levels, monitor=m)
         return res
